@@ -880,27 +880,62 @@ def initial_states(m, fname, role):
     return outs
 
 
+def analyse_role(m, ctx, fname, role, checker):
+    """{outcome description: [(key, message)]}, interpreter"""
+    ip = Interp(m, ctx, fname)
+    outcomes = {}
+    nfinal = 0
+    for st0 in initial_states(m, fname, role):
+        for (st, ret) in ip.explore(fname, st0):
+            nfinal += 1
+            bads = []
+
+            def bad(key, msg, bads=bads):
+                bads.append((key, msg))
+            desc = checker(ip, st, ret, bad)
+            o = outcomes.setdefault(desc, [])
+            for b in bads:
+                if b not in o:
+                    o.append(b)
+    ip.nfinal = nfinal
+    return outcomes, ip
+
+
+def fixture_model(ctx):
+    """the positive-control fixture (fixtures/controls.c) parsed on its own, with the configuration of this run"""
+    fm = getattr(ctx, '_fixture_model', None)
+    if fm is None:
+        import os
+        from canalyze import model as modelmod
+        path = os.path.join(os.path.dirname(os.path.dirname(os.path.abspath(__file__))), 'fixtures', 'controls.c')
+        fm = modelmod.Model(defs=getattr(ctx.m, 'config', ()), units=[], extra_files=[path])
+        ctx._fixture_model = fm
+    return fm
+
+
+def controls(ctx):
+    """positive controls: known-defective copies of the analysed functions must be reported on every run"""
+    fm = fixture_model(ctx)
+    for (fname, role, checker, want) in (('CTL_TmrInsert', 'insert', check_insert, 'shifted:c'),
+                                          ('CTL_TmrRemove', 'remove', check_remove, 'shifted:c2')):
+        outcomes, ip = analyse_role(fm, ctx, fname, role, checker)
+        keys = set(k for bads in outcomes.values() for (k, msg) in bads)
+        fired = want in keys
+        ctx.controls.append({'rule': RULE, 'fixture': 'fixtures/controls.c:%s' % fname, 'expected_finding': want, 'fired': fired})
+        if not fired:
+            ctx.broke(PROPS, '%s: positive control %s did not fire (expected %s, got %s): the rule has lost its teeth' % (
+                RULE, fname, want, sorted(keys)))
+
+
 def run(ctx):
     m = ctx.m
     roles = (('COTmrInsert', 'insert', check_insert), ('COTmrRemove', 'remove', check_remove), ('COTmrService', 'service', check_service))
     m.need(*[r[0] for r in roles])
+    controls(ctx)
     total = 0
     for (fname, role, checker) in roles:
-        ip = Interp(m, ctx, fname)
-        outcomes = {}
-        nfinal = 0
-        for st0 in initial_states(m, fname, role):
-            for (st, ret) in ip.explore(fname, st0):
-                nfinal += 1
-                bads = []
-
-                def bad(key, msg, bads=bads):
-                    bads.append((key, msg))
-                desc = checker(ip, st, ret, bad)
-                o = outcomes.setdefault(desc, [])
-                for b in bads:
-                    if b not in o:
-                        o.append(b)
+        outcomes, ip = analyse_role(m, ctx, fname, role, checker)
+        nfinal = ip.nfinal
         loc = m.loc(fname, m.funcs[fname].line)
         for desc, bads in sorted(outcomes.items()):
             total += 1
